@@ -4,6 +4,7 @@ validation, and the buffer-flow programs of the multi-pass wrappers). Helper lem
 -/
 import Mahotas.Proofs.C09
 import Mahotas.Generated.OutConv
+import Mahotas.Properties.C10
 set_option linter.unusedSimpArgs false
 open Mahotas Mahotas.C09
 
@@ -128,7 +129,7 @@ is C-contiguous and has the input's dtype (or is that bool/uint8 pair); otherwis
 theorem C09_hitmiss_validation (inp o : Desc) :
     ((hitmissOut inp (some o) = .useOut ∨ hitmissOut inp (some o) = .useView) ↔
       (o.shape = inp.shape ∧ o.ccontig = true ∧
-        (o.dtype = inp.dtype ∨ (o.dtype = dtBool ∧ inp.dtype = dtU8)))) ∧
+        (o.dtype = inp.dtype ∨ (o.dtype = C09.dtBool ∧ inp.dtype = C09.dtU8)))) ∧
     (hitmissOut inp (some o) ≠ .fresh) ∧
     (o.ccontig = false → hitmissOut inp (some o) = .valueError) := by
   simp only [hitmissOut]
@@ -327,12 +328,502 @@ theorem C09_repaired_sites_source_tie : C09.expectedSitesRepaired.all C09.siteOk
 /-! non-vacuity: a concrete acceptable and three concrete unacceptable buffers for a (3,4) uint8 image,
     and the full run of `open` on them. -/
 example :
-    let f : Desc := { dtype := dtU8, shape := [3, 4], ccontig := true }
-    let good : Desc := { dtype := dtU8, shape := [3, 4], ccontig := true }
+    let f : Desc := { dtype := C09.dtU8, shape := [3, 4], ccontig := true }
+    let good : Desc := { dtype := C09.dtU8, shape := [3, 4], ccontig := true }
     Acceptable f good none ∧
-    ¬ Acceptable f { good with dtype := dtBool } none ∧
+    ¬ Acceptable f { good with dtype := C09.dtBool } none ∧
     ¬ Acceptable f { good with shape := [4, 3] } none ∧
     ¬ Acceptable f { good with ccontig := false } none ∧
     (openP 0 1 (some 2) (initSt [f, f] (some good))).ret = some 2 ∧
     (openP 0 1 (some 2) (initSt [f, f] (some { good with ccontig := false }))).exc = some .contig := by
   decide
+
+/-! ## Round 4 — `out` aliased to an input (the `np.may_share_memory` guards) -/
+
+/-- **C09 (aliasing, single-pass wrappers, as repaired).** `output = _get_output(A, out, dtype);
+if np.may_share_memory(A, output): A = A.copy(); return kernel(A, Bc, output)` — dilate, erode, locmax/locmin/regmax/regmin,
+majority_filter, hitmiss, convolve, convolve1d (fast path), median/mean/rank filter, template_match, border(s), shift, zoom.
+When the input itself is passed as `out` (it has the documented dtype and is C-contiguous) the call returns that buffer and it
+holds exactly the result of the call without `out`: the kernel read a private copy taken before the first write. -/
+theorem C09_alias_single_pass (op : Op) (A bc : Desc) (dt : Option Nat) (h : Acceptable A A dt) :
+    AliasSafe [A, bc] 0 (fun out => kernel1G true op 0 1 out dt) (.ap op (.inp 0) (.inp 1)) := by
+  obtain ⟨h1, -, h3⟩ := h
+  cases dt with
+  | none => flowG_eval getOutput, h3
+  | some d => simp only [expectedDtype] at h1; flowG_eval getOutput, h1, h3
+
+/-- **C09 (aliasing, single-pass wrappers: the SECOND operand as `out`).** A structuring element / weights / template that
+has the documented dtype, the image's shape and is C-contiguous may be passed as `out` too: the wrapper (erode, dilate,
+template_match: `if np.may_share_memory(Bc, output): Bc = Bc.copy()`) or the native filter iterator (which copies the
+filter into its own tables before the first store) works on a private copy; the buffer of the second operand is returned
+holding the result of the call without `out`, the image is intact. -/
+theorem C09_alias_second_operand (op : Op) (A bc : Desc) (dt : Option Nat) (h : Acceptable A bc dt) :
+    AliasSafe [A, bc] 1 (fun out => kernel1G true op 0 1 out dt) (.ap op (.inp 0) (.inp 1)) := by
+  obtain ⟨h1, h2, h3⟩ := h
+  cases dt with
+  | none => simp only [expectedDtype] at h1; flowG_eval getOutput, h1, h2, h3
+  | some d => simp only [expectedDtype] at h1; flowG_eval getOutput, h1, h2, h3
+
+/-- **C09 (aliasing: the guard is necessary, and it protects the image only).** Without the guard the kernel reads the
+image while it overwrites it: the model's result contains an unspecified operand and is not the result of the call without
+`out` (the real erode/dilate/locmax/convolve/median/… returned wrong values: repaired in b59f356, 5cc8b45, 4f4d652, cdef7af).
+The same holds for the second operand (structuring element / template) passed as `out` (third conjunct; repaired in
+fe3aaf2, f3c2a7a). -/
+theorem C09_alias_single_pass_unguarded (op : Op) (A bc : Desc) (h : Acceptable A A none) :
+    (kernel1G false op 0 1 (some 0) none (initSt [A, bc] none)).retVal = some (.ap op .undef (.inp 1)) ∧
+    ¬ AliasSafe [A, bc] 0 (fun out => kernel1G false op 0 1 out none) (.ap op (.inp 0) (.inp 1)) ∧
+    (Acceptable A bc none →
+      (kernel1G false op 0 1 (some 1) none (initSt [A, bc] none)).retVal = some (.ap op (.inp 0) .undef)) := by
+  obtain ⟨-, -, h3⟩ := h
+  refine ⟨?_, ?_, ?_⟩
+  · flowG_eval getOutput, h3
+  · flowG_eval getOutput, h3
+  · rintro ⟨h1, h2, h3'⟩
+    simp only [expectedDtype] at h1
+    flowG_eval getOutput, h1, h2, h3'
+
+/-- **C09-T2 for the guarded wrappers (single pass, store-then-in-place).** With an `out` that is a buffer of its own the
+guards do nothing: the round-4 programs honour the convention exactly like the earlier ones (fresh buffer without `out`; an
+acceptable `out` is returned and holds the complete result; any other `out` raises with nothing written) — with or without
+the guards. -/
+theorem C09_flow_guarded (g : Bool) (op : Op) (A bc : Desc) (dt : Option Nat) :
+    Honours [A, bc] A dt (fun out => kernel1G g op 0 1 out dt) (.ap op (.inp 0) (.inp 1)) ∧
+    Honours [A, bc] A dt (fun out => inplaceP g op 0 1 out dt) (.ap op (.inp 0) (.inp 1)) := by
+  refine ⟨?_, ?_⟩
+  · cases g <;> cases dt with
+    | none => honoursG_tac A, none
+    | some d => honoursG_tac A, (some d)
+  · cases g <;> cases dt with
+    | none => honoursG_tac A, none
+    | some d => honoursG_tac A, (some d)
+
+/-- **C09-T2 for the guarded two-pass wrappers** (`open`, `close` over the guarded `erode`/`dilate`, with their own guard
+for the structuring element): the convention holds as before, with or without the guards. -/
+theorem C09_flow_guarded_open_close (g : Bool) (A bc : Desc) :
+    Honours [A, bc] A none (openGP g 0 1) (.ap .dilate (.ap .erode (.inp 0) (.inp 1)) (.inp 1)) ∧
+    Honours [A, bc] A none (closeGP g 0 1) (.ap .erode (.ap .dilate (.inp 0) (.inp 1)) (.inp 1)) := by
+  refine ⟨?_, ?_⟩
+  · cases g <;> honoursG_tac A, none
+  · cases g <;> honoursG_tac A, none
+
+/-- **C09-T2 for the guarded `cerode` and `subm`.** -/
+theorem C09_flow_guarded_cerode_subm (g : Bool) (A B bc : Desc) :
+    Honours [A, B, bc] A none (cerodeGP g 0 1 2)
+      (.ap .maximum (.ap .erode (.ap .maximum (.inp 0) (.inp 1)) (.inp 2)) (.inp 1)) ∧
+    Honours [A, B] A none (submGP g 0 1) (.ap .subm (.inp 0) (.inp 1)) := by
+  refine ⟨?_, ?_⟩
+  · cases g <;> honoursG_tac A, none
+  · cases g <;> honoursG_tac A, none
+
+/-- **C09-T2 for the guarded `tophat_close`.** -/
+theorem C09_flow_guarded_tophat_close (g : Bool) (A bc : Desc) :
+    Honours [A, bc] A none (tophatCloseGP g 0 1)
+      (.ap .subm (.ap .erode (.ap .dilate (.inp 0) (.inp 1)) (.inp 1)) (.inp 0)) := by
+  cases g <;> honoursG_tac A, none
+
+/-- **C09-T2 for the guarded `tophat_open`.** -/
+theorem C09_flow_guarded_tophat_open (g : Bool) (A bc : Desc) :
+    Honours [A, bc] A none (tophatOpenGP g 0 1)
+      (.ap .subm (.inp 0) (.ap .dilate (.ap .erode (.inp 0) (.inp 1)) (.inp 1))) := by
+  cases g <;> honoursG_tac A, none
+
+/-- **C09 (aliasing, `open` / `close`).** `open(f, Bc, out=f)`: the first pass (`erode`, guarded) reads a copy of `f` and
+writes `f`; the second pass works on `eroded.copy()` and writes `eroded` = `f`: the input buffer is returned and holds the
+opening of its call-time content. Same for `close`. -/
+theorem C09_alias_open_close (f bc : Desc) (hc : f.ccontig = true) :
+    AliasSafe [f, bc] 0 (openGP true 0 1) (.ap .dilate (.ap .erode (.inp 0) (.inp 1)) (.inp 1)) ∧
+    AliasSafe [f, bc] 0 (closeGP true 0 1) (.ap .erode (.ap .dilate (.inp 0) (.inp 1)) (.inp 1)) := by
+  constructor <;> flowG_eval getOutput, hc
+
+/-- **C09 (aliasing, `open` / `close` with the structuring element as `out`).** `if np.may_share_memory(Bc, out): Bc = Bc.copy()`
+in front of the two passes: both passes use the saved element although the first pass overwrites `out` = `Bc`. Without the
+guards the second pass would use the eroded image as its structuring element (third conjunct). -/
+theorem C09_alias_open_close_Bc (f bc : Desc) (h : Acceptable f bc none) :
+    AliasSafe [f, bc] 1 (openGP true 0 1) (.ap .dilate (.ap .erode (.inp 0) (.inp 1)) (.inp 1)) ∧
+    AliasSafe [f, bc] 1 (closeGP true 0 1) (.ap .erode (.ap .dilate (.inp 0) (.inp 1)) (.inp 1)) ∧
+    (openGP false 0 1 (some 1) (initSt [f, bc] none)).retVal ≠
+      some (.ap .dilate (.ap .erode (.inp 0) (.inp 1)) (.inp 1)) := by
+  obtain ⟨h1, h2, h3⟩ := h
+  simp only [expectedDtype] at h1
+  refine ⟨?_, ?_, ?_⟩ <;> flowG_eval getOutput, h1, h2, h3
+
+/-- **C09 (aliasing, `cerode`).** `out = f` needs no guard (the kernel reads the temporary `maximum(f, g)`); `out = g` is
+safe because of the guard `if np.may_share_memory(g, out): g = g.copy()`: the final `maximum(eroded, g)` uses the saved
+condition. Without that guard `out = g` returns `maximum(eroded, eroded)`: the condition is lost (third conjunct). -/
+theorem C09_alias_cerode (f g bc : Desc) :
+    (f.ccontig = true → ∀ gd : Bool,
+      AliasSafe [f, g, bc] 0 (cerodeGP gd 0 1 2)
+        (.ap .maximum (.ap .erode (.ap .maximum (.inp 0) (.inp 1)) (.inp 2)) (.inp 1))) ∧
+    (Acceptable f g none →
+      AliasSafe [f, g, bc] 1 (cerodeGP true 0 1 2)
+        (.ap .maximum (.ap .erode (.ap .maximum (.inp 0) (.inp 1)) (.inp 2)) (.inp 1))) ∧
+    (Acceptable f g none →
+      (cerodeGP false 0 1 2 (some 1) (initSt [f, g, bc] none)).retVal =
+        some (.ap .maximum (.ap .erode (.ap .maximum (.inp 0) (.inp 1)) (.inp 2))
+                           (.ap .erode (.ap .maximum (.inp 0) (.inp 1)) (.inp 2)))) ∧
+    (Acceptable f bc none →
+      AliasSafe [f, g, bc] 2 (cerodeGP true 0 1 2)
+        (.ap .maximum (.ap .erode (.ap .maximum (.inp 0) (.inp 1)) (.inp 2)) (.inp 1))) := by
+  refine ⟨fun hc gd => ?_, ?_, ?_, ?_⟩
+  rotate_left 3
+  · rintro ⟨h1, h2, h3⟩
+    simp only [expectedDtype] at h1
+    flowG_eval getOutput, h1, h2, h3
+  · cases gd <;> flowG_eval getOutput, hc
+  · rintro ⟨h1, h2, h3⟩
+    simp only [expectedDtype] at h1
+    flowG_eval getOutput, h1, h2, h3
+  · rintro ⟨h1, h2, h3⟩
+    simp only [expectedDtype] at h1
+    flowG_eval getOutput, h1, h2, h3
+
+/-- **C09 (aliasing, `subm`).** `out = a` is the documented in-place use (`out is a`: no copy, the element-wise native
+`subm` works in place); `out = b` is safe because of the guard (`b` is saved before `out[:] = a` overwrites it); without the
+guard `subm(a, b, out=b)` computes `a − a` (third conjunct: the defect repaired in 5ae511d). -/
+theorem C09_alias_subm (a b : Desc) :
+    (a.ccontig = true → ∀ gd : Bool, AliasSafe [a, b] 0 (submGP gd 0 1) (.ap .subm (.inp 0) (.inp 1))) ∧
+    (Acceptable a b none → AliasSafe [a, b] 1 (submGP true 0 1) (.ap .subm (.inp 0) (.inp 1))) ∧
+    (Acceptable a b none →
+      (submGP false 0 1 (some 1) (initSt [a, b] none)).retVal = some (.ap .subm (.inp 0) (.inp 0))) := by
+  refine ⟨fun hc gd => ?_, ?_, ?_⟩
+  · cases gd <;> flowG_eval getOutput, hc
+  · rintro ⟨h1, h2, h3⟩
+    simp only [expectedDtype] at h1
+    flowG_eval getOutput, h1, h2, h3
+  · rintro ⟨h1, h2, h3⟩
+    simp only [expectedDtype] at h1
+    flowG_eval getOutput, h1, h2, h3
+
+/-- **C09 (aliasing, top-hats).** `tophat_close(f, Bc, out=f)`: `fc = close(f)` is a fresh buffer, then
+`subm(fc, f, out=f)` — `out` is the subtrahend, saved by `subm`'s guard; `tophat_open(f, Bc, out=f)`: `subm(f, fo, out=f)` is
+the in-place use. Both return `f` holding the top-hat of its call-time content. -/
+theorem C09_alias_tophat (f bc : Desc) (hc : f.ccontig = true) :
+    AliasSafe [f, bc] 0 (tophatCloseGP true 0 1)
+      (.ap .subm (.ap .erode (.ap .dilate (.inp 0) (.inp 1)) (.inp 1)) (.inp 0)) ∧
+    AliasSafe [f, bc] 0 (tophatOpenGP true 0 1)
+      (.ap .subm (.inp 0) (.ap .dilate (.ap .erode (.inp 0) (.inp 1)) (.inp 1))) := by
+  constructor <;> flowG_eval getOutput, hc
+
+/-- **C09 (aliasing, store-then-in-place wrappers: `label`, `spline_filter1d`, `spline_filter`).**
+`output = _get_output(array, out, dtype); output[...] = array; kernel(output, …)`: with `out = array` the store is a
+self-assignment and the kernel only ever works on `output`: safe without any guard. `label` also reads a structuring
+element: passed as `out` it is saved by `if np.may_share_memory(Bc, output): Bc = Bc.copy()` before the store (second
+conjunct); without that guard the store would overwrite it first (third conjunct; repaired in 1c2ac70). -/
+theorem C09_alias_inplace (g : Bool) (op : Op) (A bc : Desc) (dt : Option Nat) :
+    (Acceptable A A dt → AliasSafe [A, bc] 0 (fun out => inplaceP g op 0 1 out dt) (.ap op (.inp 0) (.inp 1))) ∧
+    (Acceptable A bc dt → AliasSafe [A, bc] 1 (fun out => inplaceP true op 0 1 out dt) (.ap op (.inp 0) (.inp 1))) ∧
+    (Acceptable A bc dt →
+      (inplaceP false op 0 1 (some 1) dt (initSt [A, bc] none)).retVal = some (.ap op (.inp 0) .undef)) := by
+  refine ⟨?_, ?_, ?_⟩
+  · rintro ⟨h1, -, h3⟩
+    cases g <;> cases dt with
+    | none => flowG_eval getOutput, h3
+    | some d => simp only [expectedDtype] at h1; flowG_eval getOutput, h1, h3
+  · rintro ⟨h1, h2, h3⟩
+    cases dt with
+    | none => simp only [expectedDtype] at h1; flowG_eval getOutput, h1, h2, h3
+    | some d => simp only [expectedDtype] at h1; flowG_eval getOutput, h1, h2, h3
+  · rintro ⟨h1, h2, h3⟩
+    cases dt with
+    | none => simp only [expectedDtype] at h1; flowG_eval getOutput, h1, h2, h3
+    | some d => simp only [expectedDtype] at h1; flowG_eval getOutput, h1, h2, h3
+
+/-- **C09 (aliasing, `gaussian_filter`, every number of axes).** `gaussian_filter(array, σ, out=array)`: `output[...] =
+array[...]` is a self-assignment, every pass reads one buffer and writes the *other* one of the ping-pong (never the one it
+reads), and the copy-back lands in `array`: safe without any guard, for every rank. -/
+theorem C09_alias_gaussian (a bc : Desc) (n : Nat) (hc : a.ccontig = true) :
+    AliasSafe [a, bc] 0 (fun out => gaussRepairedP 0 1 out n) (gaussIter (.inp 1) n (.inp 0)) := by
+  refine ⟨(flow_gaussian_all a bc n).1.1, ?_⟩
+  have hg : getOutput a (some a) none = .useOut := (getOutput_useOut_iff a a none).2 ⟨rfl, rfl, hc⟩
+  let s0 := initSt [a, bc] none
+  let sW := write 0 (.inp 0) s0
+  have key : gaussRepairedP 0 1 (some 0) n s0 = (gaussLoop 1 n 0 none sW).bind (copyBack 0) := by
+    have hd0 : s0.desc 0 = a := rfl
+    unfold gaussRepairedP getOut
+    simp only [Option.map_some, hd0, hg, R.bind]
+    rfl
+  have hl : sW.heap.length = 2 := rfl
+  obtain ⟨s', h1, h2, h3⟩ := gaussRun 1 n 0 sW (by rw [hl]; omega) (by rw [hl]; omega) (by decide) (by exact hc)
+  have hv1 : sW.val 1 = .inp 1 := rfl
+  have hv0 : sW.val 0 = .inp 0 := rfl
+  show (gaussRepairedP 0 1 (some 0) n s0).ret = some 0 ∧ (gaussRepairedP 0 1 (some 0) n s0).st.val 0 = _ ∧
+    intactBut (gaussRepairedP 0 1 (some 0) n s0).st 0 2
+  rw [key]
+  unfold copyBack
+  rw [h1]
+  refine ⟨rfl, ?_, ?_⟩
+  · simp only [R.st, h2, hv1, hv0]
+  · simp only [intactBut, R.st]
+    exact ⟨fun _ => by rw [h3 1 (by rw [hl]; omega) (by omega), hv1], fun h => absurd rfl h, trivial⟩
+
+/-! ### tie of the aliasing models to the current source -/
+
+/-- do the events `xs` occur in `ys` in this order (not necessarily next to each other)? -/
+def C09.isSubseq : List (String × String) → List (String × String) → Bool
+  | [], _ => true
+  | _ :: _, [] => false
+  | x :: xs, y :: ys => if x == y then C09.isSubseq xs ys else C09.isSubseq (x :: xs) ys
+
+/-- for every public function with an out/output parameter: the aliasing class its model belongs to and the events — in
+source order — that class relies on. `guarded`: `_get_output`, then the guard `if np.may_share_memory(x, out): x = x.copy()`,
+then the native call on the (possibly copied) `x` and `out` (`kernel1G true`, theorem `C09_alias_single_pass`); `cerode`,
+`subm`: their own guards (`C09_alias_cerode`, `C09_alias_subm`); `compose`: built from guarded functions
+(`C09_alias_open_close`, `C09_alias_tophat`; `gaussian_filter1d` forwards to `convolve1d`); `inplace`: whole-buffer store, then
+an in-place kernel on the output only (`C09_alias_inplace`); `pingpong`: `C09_alias_gaussian`; `elementwise`:
+`remove_bordering` (numpy element-wise statements only, in-place use documented). -/
+def C09.aliasPlan : List (String × String × List (String × String)) := [
+  ("morph.dilate", "guarded", [("get_output", "(A,out,None,output)"), ("unalias", "A|A~output"), ("unalias", "Bc|Bc~output"), ("native", "_morph.dilate(A,Bc,output)")]),
+  ("morph.erode", "guarded", [("get_output", "(A,out,None,output)"), ("unalias", "A|A~output"), ("unalias", "Bc|Bc~output"), ("native", "_morph.erode(A,Bc,output)")]),
+  ("morph.cerode", "cerode", [("get_output", "(f,out,None,output)"), ("unalias", "g|g~out"), ("unalias", "Bc|Bc~out"), ("native", "_morph.erode(f,Bc,out)"), ("call", "np.maximum(f,g,out=f)")]),
+  ("morph.hitmiss", "guarded", [("unalias", "input|input~out"), ("native", "_morph.hitmiss(input,Bc,out)")]),
+  ("morph.open", "compose", [("unalias", "Bc|Bc~out if out is not None else output"), ("call", "erode(f,Bc,out=out,output=output)"), ("call", "dilate(eroded.copy(),Bc,out=eroded)")]),
+  ("morph.close", "compose", [("unalias", "Bc|Bc~out if out is not None else output"), ("call", "dilate(f,Bc,out=out,output=output)"), ("call", "erode(dilated.copy(),Bc,out=dilated)")]),
+  ("morph.majority_filter", "guarded", [("get_output", "(img,out,np.bool_,output)"), ("unalias", "img|img~output"), ("native", "_morph.majority_filter(img,N,output)")]),
+  ("morph.locmax", "guarded", [("get_output", "(f,out,np.bool_,output)"), ("unalias", "f|f~output"), ("native", "_morph.locmin_max(f,Bc,output,False)")]),
+  ("morph.locmin", "guarded", [("get_output", "(f,out,np.bool_,output)"), ("unalias", "f|f~output"), ("native", "_morph.locmin_max(f,Bc,output,True)")]),
+  ("morph.regmin", "guarded", [("get_output", "(f,out,np.bool_,output)"), ("unalias", "f|f~output"), ("native", "_morph.regmin_max(f,Bc,output,True)")]),
+  ("morph.regmax", "guarded", [("get_output", "(f,out,np.bool_,output)"), ("unalias", "f|f~output"), ("native", "_morph.regmin_max(f,Bc,output,False)")]),
+  ("morph.subm", "subm", [("get_output", "(a,out,None)"), ("unalias", "b|out~b"), ("store", "out[:]=a"), ("native", "_morph.subm(out,b)")]),
+  ("morph.tophat_close", "compose", [("get_output", "(f,out,None)"), ("call", "close(f,Bc)"), ("call", "subm(fc,f,out=out)")]),
+  ("morph.tophat_open", "compose", [("get_output", "(f,out,None)"), ("call", "open(f,Bc)"), ("call", "subm(f,fo,out=out)")]),
+  ("convolve.convolve", "guarded", [("get_output", "(f,out,None,output)"), ("unalias", "f|f~output"), ("native", "_convolve.convolve(f,weights,output,mode2int[mode])")]),
+  ("convolve.convolve1d", "guarded", [("get_output", "(f,out,None)"), ("unalias", "f|f~out"),
+     ("native", "_convolve.convolve1d(f,weights,out.reshape(f.shape),mode2int[mode])"), ("native", "_convolve.convolve1d(f,weights,tmp,mode2int[mode])"),
+     ("store", "out[...]=tmp.reshape(tshape).transpose(rindices)"), ("call", "convolve(f,weights,mode=mode,cval=cval,out=out)")]),
+  ("convolve.median_filter", "guarded", [("get_output", "(f,out,None,output)"), ("unalias", "f|f~output"), ("native", "_convolve.rank_filter(f,Bc,output,int(rank),mode2int[mode])")]),
+  ("convolve.mean_filter", "guarded", [("get_output", "(f,out,np.float64)"), ("unalias", "f|f~out"), ("native", "_convolve.mean_filter(f,Bc,out,mode2int[mode],cval)")]),
+  ("convolve.rank_filter", "guarded", [("get_output", "(f,out,None,output)"), ("unalias", "f|f~output"), ("native", "_convolve.rank_filter(f,Bc,output,rank,mode2int[mode])")]),
+  ("convolve.template_match", "guarded", [("get_output", "(f,out,None,output)"), ("unalias", "f|f~output"), ("unalias", "template|template~output"), ("native", "_convolve.template_match(f,template,output,mode2int[mode],0)")]),
+  ("convolve.gaussian_filter1d", "compose", [("call", "convolve1d(array,weights,axis,mode,cval,out=out)")]),
+  ("convolve.gaussian_filter", "pingpong", [("get_output", "(array,out,None,output)"), ("store", "output[...]=array[...]"),
+     ("call", "gaussian_filter1d(output,sigma,axis,order,mode,cval,noutput)"), ("store", "result[...]=output"), ("return", "result")]),
+  ("labeled.label", "inplace", [("get_output", "(array,out,np.int32,output)"), ("unalias", "Bc|Bc~output"), ("store", "output[:]=array != 0"), ("native", "_labeled.label(output,Bc)")]),
+  ("labeled.remove_bordering", "elementwise", [("unalias", "im|out~im"), ("store", "out[:]=im"), ("return", "out")]),
+  ("labeled.border", "guarded", [("get_output", "(labeled,out,bool,output)"), ("unalias", "labeled|labeled~output"), ("fill", "output(False)"),
+     ("native", "_labeled.border(labeled,Bc,output,i,j,bool(always_return))")]),
+  ("labeled.borders", "guarded", [("get_output", "(labeled,out,bool,output)"), ("unalias", "labeled|labeled~output"), ("fill", "output(False)"),
+     ("native", "_labeled.borders(labeled,Bc,output,_checked_mode2int(mode, 0.0, 'borders'))")]),
+  ("interpolate.spline_filter1d", "inplace", [("get_output", "(array,out,dtype,output)"), ("store", "output[...]=array"), ("native", "_interpolate.spline_filter1d(output,order,axis)")]),
+  ("interpolate.spline_filter", "inplace", [("get_output", "(array,out,dtype,output)"), ("store", "output[...]=array"), ("native", "_interpolate.spline_filter1d(output,order,axis)")]),
+  ("interpolate.zoom", "guarded", [("unalias", "array|array~out"), ("native", "_interpolate.zoom_shift(array,zoom,None,out,order,mode2int[mode],cval)")]),
+  ("interpolate.shift", "guarded", [("get_output", "(array,out,np.float64,output)"), ("unalias", "array|array~output"),
+     ("native", "_interpolate.zoom_shift(array,None,shift,output,order,mode2int[mode],cval)")])]
+
+/-- the events of one function in the current source -/
+def C09.eventsOf (fn : String) : List (String × String) :=
+  match Generated.outEvents.find? (·.1 == fn) with
+  | some e => e.2
+  | none => []
+
+/-- **tie of the aliasing theorems to the current source** (regenerated on every run): (1) the functions with an out/output
+parameter are exactly the planned ones, in order; (2) for each, the events its class relies on occur in the source **in
+that order** — in particular every `guarded` wrapper still has its `if np.may_share_memory(x, out): x = x.copy()` *after*
+`_get_output` and *before* the native call; (3) every `guarded` plan does contain such a guard and a native call after it
+(the plan itself is not vacuous), and the only native kernels called on an `out` buffer that may be the input without a guard
+are the in-place ones without a second array operand (`spline_filter1d`, `spline_filter`); `label` and `subm` work in place
+and guard their second operand. Removing or moving one guard makes this `decide` fail. -/
+theorem C09_alias_guards_source_tie :
+    Generated.outEvents.map (·.1) = C09.aliasPlan.map (·.1) ∧
+    C09.aliasPlan.all (fun p => C09.isSubseq p.2.2 (C09.eventsOf p.1)) = true ∧
+    (C09.aliasPlan.filter (fun p => p.2.1 == "guarded")).all (fun p =>
+      match p.2.2.dropWhile (fun e => e.1 != "unalias") with
+      | _ :: rest => rest.any (·.1 == "native")
+      | [] => false) = true ∧
+    (Generated.outEvents.filter (fun e => e.2.any (·.1 == "native") && !e.2.any (·.1 == "unalias"))).map (·.1) =
+      ["interpolate.spline_filter1d", "interpolate.spline_filter"] := by
+  decide +kernel
+
+
+/-! ### "writes the COMPLETE result": composition with the defined-everywhere cover of C10 -/
+
+/-- for every function with an out/output parameter: the rows of C10's allocation cover (`allocCover`: file, function,
+variable; regenerated site list `Generated.allocSiteTable`) that describe how the buffer it hands to a kernel is filled.
+The kernel cannot tell a fresh `np.empty` buffer from the caller's `out` (`C09_getOut_out_itself_or_untouched`: on
+acceptance the very same code runs on `out` itself), so the theorem that every cell of the fresh buffer is stored before the
+call returns is the theorem that every cell of `out` is. Functions that only forward `out` cite the rows of the functions
+they forward to. -/
+def C09.writeCover : List (String × List (String × String × String)) := [
+  ("morph.dilate", [("morph.py", "dilate", "output")]),
+  ("morph.erode", [("morph.py", "erode", "output")]),
+  ("morph.cerode", [("morph.py", "cerode", "out")]),
+  ("morph.hitmiss", [("morph.py", "hitmiss", "out")]),
+  ("morph.open", [("morph.py", "erode", "output"), ("morph.py", "dilate", "output")]),
+  ("morph.close", [("morph.py", "dilate", "output"), ("morph.py", "erode", "output")]),
+  ("morph.majority_filter", [("morph.py", "majority_filter", "output")]),
+  ("morph.locmax", [("morph.py", "locmax", "output")]),
+  ("morph.locmin", [("morph.py", "locmin", "output")]),
+  ("morph.regmin", [("morph.py", "regmin", "output")]),
+  ("morph.regmax", [("morph.py", "regmax", "output")]),
+  ("morph.subm", [("morph.py", "subm", "out")]),
+  ("morph.tophat_close", [("morph.py", "tophat_close", "out"), ("morph.py", "subm", "out")]),
+  ("morph.tophat_open", [("morph.py", "tophat_open", "out"), ("morph.py", "subm", "out")]),
+  ("convolve.convolve", [("convolve.py", "convolve", "output")]),
+  ("convolve.convolve1d", [("convolve.py", "convolve1d", "out"), ("convolve.py", "convolve1d", "tmp"), ("convolve.py", "convolve", "output")]),
+  ("convolve.median_filter", [("convolve.py", "median_filter", "output")]),
+  ("convolve.mean_filter", [("convolve.py", "mean_filter", "out")]),
+  ("convolve.rank_filter", [("convolve.py", "rank_filter", "output")]),
+  ("convolve.template_match", [("convolve.py", "template_match", "output")]),
+  ("convolve.gaussian_filter1d", [("convolve.py", "convolve1d", "out"), ("convolve.py", "convolve1d", "tmp"), ("convolve.py", "convolve", "output")]),
+  ("convolve.gaussian_filter", [("convolve.py", "gaussian_filter", "output"), ("convolve.py", "convolve1d", "out")]),
+  ("labeled.label", [("labeled.py", "label", "output")]),
+  ("labeled.remove_bordering", []),
+  ("labeled.border", [("labeled.py", "border", "output")]),
+  ("labeled.borders", [("labeled.py", "borders", "output")]),
+  ("interpolate.spline_filter1d", [("interpolate.py", "spline_filter1d", "output")]),
+  ("interpolate.spline_filter", [("interpolate.py", "spline_filter", "output")]),
+  ("interpolate.zoom", [("interpolate.py", "zoom", "out")]),
+  ("interpolate.shift", [("interpolate.py", "shift", "output")])]
+
+/-- **C09 ("writes the complete result").** (1) Every public function with an out/output parameter of the current source
+has an entry in `C09.writeCover`; (2) every row it cites is a row of C10's `allocCover` that is marked *proved* and names at
+least one theorem about the loop shape that stores every cell (whole-buffer fill / one store per pixel of the iteration / every
+column of every row / window loops after a fill — `C10_alloc_*_defined`), and the site is still in the regenerated
+`Generated.allocSiteTable`; (3) the only function without such a row is `remove_bordering`, which consists of numpy
+whole-array statements (`out[:] = im; out *= …`). Together with `C09_getOut_out_itself_or_untouched` (the kernel runs on `out`
+itself) and the flow theorems (`st.val k = V`: the last whole-buffer write is the final result): an accepted `out` is written in
+every cell. -/
+theorem C09_complete_write_cover :
+    Generated.outSites.map (·.1) = C09.writeCover.map (·.1) ∧
+    C09.writeCover.all (fun w => w.2.all fun r =>
+      (allocCover.any fun c => c.file == r.1 && c.fn == r.2.1 && c.var == r.2.2 && c.proved && !c.thms.isEmpty) &&
+      (Generated.allocSiteTable.any fun s => s.1 == r.1 && s.2.1 == r.2.1 && s.2.2.1 == r.2.2)) = true ∧
+    (C09.writeCover.filter (·.2.isEmpty)).map (·.1) = ["labeled.remove_bordering"] := by
+  decide +kernel
+
+/-! non-vacuity (round 4): a (3,4) uint8 image passed as its own `out` — safe with the guard, garbage without it; a strided
+    image is not an acceptable `out` for itself; the subsequence test really tests the order. -/
+example :
+    let f : Desc := { dtype := C09.dtU8, shape := [3, 4], ccontig := true }
+    AliasSafe [f, f] 0 (fun out => kernel1G true .dilate 0 1 out none) (.ap .dilate (.inp 0) (.inp 1)) ∧
+    (kernel1G false .dilate 0 1 (some 0) none (initSt [f, f] none)).retVal = some (.ap .dilate .undef (.inp 1)) ∧
+    AliasSafe [f, f] 1 (submGP true 0 1) (.ap .subm (.inp 0) (.inp 1)) ∧
+    ¬ Acceptable { f with ccontig := false } { f with ccontig := false } none ∧
+    (kernel1G true .dilate 0 1 (some 0) none (initSt [{ f with ccontig := false }, f] none)).exc = some .contig := by
+  intro f
+  refine ⟨C09_alias_single_pass _ _ _ _ ⟨rfl, rfl, rfl⟩, (C09_alias_single_pass_unguarded .dilate f f ⟨rfl, rfl, rfl⟩).1,
+    (C09_alias_subm f f).2.1 ⟨rfl, rfl, rfl⟩, by decide, by decide⟩
+
+example : C09.isSubseq [("a", "1"), ("b", "2")] [("a", "1"), ("x", "0"), ("b", "2")] = true ∧
+    C09.isSubseq [("b", "2"), ("a", "1")] [("a", "1"), ("x", "0"), ("b", "2")] = false := by decide
+
+/-! ### native re-checks of `out`: the element-type test is an EQUIVALENCE test -/
+
+/-- is the atom a type test on argument `o`? `some true`: an equivalence test (`numpy::equiv_typenums`, `check_type<T>`,
+`PyArray_EquivTypenums`) or an exact comparison with a type number that has no second number of the same layout (bool,
+32-bit int, double); `some false`: an exact comparison (`PyArray_TYPE(o) != NPY_X`) with one of the 64-bit integer numbers,
+which come in pairs (`NPY_LONG`/`NPY_LONGLONG`: 7/9, `NPY_ULONG`/`NPY_ULONGLONG`: 8/10); `none`: not a type test on `o`. -/
+def C09.typeTestOn (o : String) : C11.NAtom → Option Bool
+  | .typesDiffer as => if as.contains o then some true else none
+  | .typeNotEquiv a _ => if a == o then some true else none
+  | .typeNe a t => if a == o then some (!(t == 7 || t == 8 || t == 9 || t == 10)) else none
+  | .whenArr _ inner => C09.typeTestOn o inner
+  | .whenNotNone _ inner => C09.typeTestOn o inner
+  | _ => none
+
+/-- the native entry points that receive the caller's `out` (or the fresh buffer), the name of that parameter, and their
+guards as extracted from the current C++ sources (`Generated/Guards.lean`, regenerated on every run) -/
+def C09.nativeOutKernels : List (String × String × List C11.NAtom) := [
+  ("_morph.dilate", "output", Generated.nativeGuards_morph_dilate),
+  ("_morph.erode", "output", Generated.nativeGuards_morph_erode),
+  ("_morph.hitmiss", "res_a", Generated.nativeGuards_morph_hitmiss),
+  ("_morph.majority_filter", "res_a", Generated.nativeGuards_morph_majority_filter),
+  ("_morph.locmin_max", "output", Generated.nativeGuards_morph_locmin_max),
+  ("_morph.regmin_max", "output", Generated.nativeGuards_morph_regmin_max),
+  ("_morph.subm", "a", Generated.nativeGuards_morph_subm),
+  ("_convolve.convolve", "output", Generated.nativeGuards_convolve_convolve),
+  ("_convolve.convolve1d", "output", Generated.nativeGuards_convolve_convolve1d),
+  ("_convolve.rank_filter", "output", Generated.nativeGuards_convolve_rank_filter),
+  ("_convolve.mean_filter", "output", Generated.nativeGuards_convolve_mean_filter),
+  ("_convolve.template_match", "output", Generated.nativeGuards_convolve_template_match),
+  ("_labeled.label", "array", Generated.nativeGuards_labeled_label),
+  ("_labeled.border", "output", Generated.nativeGuards_labeled_border),
+  ("_labeled.borders", "output", Generated.nativeGuards_labeled_borders),
+  ("_interpolate.zoom_shift", "output", Generated.nativeGuards_interpolate_zoom_shift)]
+
+/-- **C09 (native re-checks accept every buffer `_get_output` accepts).** `_get_output` compares dtypes with numpy's `!=`,
+for which `int64` created as `'l'` and as `'q'` (`np.longlong`) are EQUAL although their C type numbers differ (7/9; 8/10 for
+the unsigned pair). Every native entry point that receives `out` re-checks its element type — and each of these re-checks, as
+extracted from the current C++ source, is an equivalence test (or an exact test against a type number without a twin): so a
+buffer accepted by `_get_output` is not rejected by the second line of defence for its type number. A re-check rewritten with
+`PyArray_TYPE(output) == typenum`, or moved where the extraction no longer sees it, makes this `decide` fail. -/
+theorem C09_native_out_type_tests_equivalence :
+    C09.nativeOutKernels.all (fun k =>
+      let tests := k.2.2.filterMap (C09.typeTestOn k.2.1)
+      !tests.isEmpty && tests.all id) = true := by
+  decide +kernel
+
+example : C09.typeTestOn "output" (.typeNe "output" 9) = some false ∧
+    C09.typeTestOn "output" (.whenNotNone "output" (.typesDiffer ["output", "array"])) = some true ∧
+    C09.typeTestOn "output" (.notCArray "output") = none := by decide
+
+/-! ### Round 4: the whole flow of `hitmiss`, degenerate buffers -/
+
+/-- what `hitmiss` accepts: the input's shape, C-contiguous, and the input's dtype or a bool buffer for a uint8 input -/
+def C09.HitmissAcceptable (inp o : Desc) : Prop :=
+  o.shape = inp.shape ∧ o.ccontig = true ∧ (o.dtype = inp.dtype ∨ (o.dtype = C09.dtBool ∧ inp.dtype = C09.dtU8))
+
+instance (inp o : Desc) : Decidable (C09.HitmissAcceptable inp o) := by
+  unfold C09.HitmissAcceptable; infer_instance
+
+/-- **C09 (`hitmiss`, the whole flow; until round 4 only its decision function was modelled).** With a buffer it accepts
+(`C09.HitmissAcceptable`: also the bool buffer whose uint8 view is written) the call returns **that buffer** holding the result and
+leaves the inputs alone; any other buffer raises (shape → contiguity → dtype, in source order) with the buffer still `old` and the
+inputs intact; without `out` a fresh buffer holds the result; and with the image itself as `out` (`AliasSafe`) the guard makes the
+kernel read a copy. -/
+theorem C09_flow_hitmiss (g : Bool) (inp bc o : Desc) :
+    ((hitmissP g 0 1 none (initSt [inp, bc] none)).retVal = some (.ap .kernel (.inp 0) (.inp 1)) ∧
+      intact (hitmissP g 0 1 none (initSt [inp, bc] none)).st 2) ∧
+    (C09.HitmissAcceptable inp o →
+      (hitmissP g 0 1 (some 2) (initSt [inp, bc] (some o))).ret = some 2 ∧
+      (hitmissP g 0 1 (some 2) (initSt [inp, bc] (some o))).st.val 2 = .ap .kernel (.inp 0) (.inp 1) ∧
+      intact (hitmissP g 0 1 (some 2) (initSt [inp, bc] (some o))).st 2) ∧
+    (¬ C09.HitmissAcceptable inp o →
+      (hitmissP g 0 1 (some 2) (initSt [inp, bc] (some o))).ret = none ∧
+      (hitmissP g 0 1 (some 2) (initSt [inp, bc] (some o))).st.val 2 = .old ∧
+      intact (hitmissP g 0 1 (some 2) (initSt [inp, bc] (some o))).st 2) ∧
+    (inp.ccontig = true → AliasSafe [inp, bc] 0 (hitmissP true 0 1) (.ap .kernel (.inp 0) (.inp 1))) := by
+  refine ⟨?_, ?_, ?_, ?_⟩
+  · cases g <;> flowG_eval hitmissP, hitmissOut
+  · rintro ⟨h1, h2, h3⟩
+    rcases h3 with h3 | ⟨h3, h4⟩
+    · cases g <;> flowG_eval hitmissP, hitmissOut, h1, h2, h3
+    · by_cases hd : o.dtype = inp.dtype
+      · cases g <;> flowG_eval hitmissP, hitmissOut, h1, h2, hd
+      · have hne : ¬ C09.dtBool = C09.dtU8 := by decide
+        cases g <;> flowG_eval hitmissP, hitmissOut, h1, h2, h3, h4, hd, hne
+  · intro h
+    unfold C09.HitmissAcceptable at h
+    by_cases h1 : o.shape = inp.shape
+    · by_cases h2 : o.ccontig = true
+      · have h3 : ¬ o.dtype = inp.dtype := fun e => h ⟨h1, h2, Or.inl e⟩
+        have h4 : ¬ (o.dtype = C09.dtBool ∧ inp.dtype = C09.dtU8) := fun e => h ⟨h1, h2, Or.inr e⟩
+        cases g <;> flowG_eval hitmissP, hitmissOut, h1, h2, h3, h4
+      · have h2' : o.ccontig = false := by cases hc : o.ccontig <;> simp_all
+        cases g <;> flowG_eval hitmissP, hitmissOut, h1, h2'
+    · cases g <;> flowG_eval hitmissP, hitmissOut, h1
+  · intro hc
+    flowG_eval hitmissP, hitmissOut, hc
+
+/-- **C09 (degenerate buffers: goal "reject + untouched").** A 0-d `out` for an array of rank ≥ 1, a zero-size `out` for an
+array without an empty axis, and any buffer that is not C-contiguous (a view with negative strides, a zero-stride broadcast
+view, a Fortran-ordered or strided buffer: `ccontig = false`) are never accepted by `_get_output` — so, by the flow theorems,
+the call raises with the buffer untouched; a zero-size `out` IS accepted for an equally shaped empty array. -/
+theorem C09_getOutput_degenerate_out (a o : Desc) (dt : Option Nat) :
+    (o.shape = [] → a.shape ≠ [] → ∃ r, getOutput a (some o) dt = .reject r) ∧
+    (0 ∈ o.shape → 0 ∉ a.shape → ∃ r, getOutput a (some o) dt = .reject r) ∧
+    (o.ccontig = false → ∃ r, getOutput a (some o) dt = .reject r) ∧
+    (0 ∈ a.shape → Acceptable a o dt → 0 ∈ o.shape ∧ getOutput a (some o) dt = .useOut) := by
+  refine ⟨fun h1 h2 => ?_, fun h1 h2 => ?_, fun h => ?_, fun h1 h2 => ?_⟩
+  · exact getOutput_reject_of_not a o dt (fun ⟨_, hs, _⟩ => h2 (hs ▸ h1))
+  · exact getOutput_reject_of_not a o dt (fun ⟨_, hs, _⟩ => h2 (hs ▸ h1))
+  · exact getOutput_reject_of_not a o dt (fun ⟨_, _, hc⟩ => by rw [h] at hc; exact absurd hc (by simp))
+  · exact ⟨h2.2.1 ▸ h1, (getOutput_useOut_iff a o dt).2 h2⟩
+
+example :
+    let f : Desc := { dtype := C09.dtU8, shape := [3, 4], ccontig := true }
+    C09.HitmissAcceptable f { f with dtype := C09.dtBool } ∧ ¬ C09.HitmissAcceptable f { f with ccontig := false } ∧
+    (hitmissP true 0 1 (some 2) (initSt [f, f] (some { f with dtype := C09.dtBool }))).ret = some 2 ∧
+    (∃ r, getOutput f (some { f with shape := [] }) none = .reject r) ∧
+    getOutput { f with shape := [0, 4] } (some { f with shape := [0, 4] }) none = .useOut := by
+  intro f
+  refine ⟨by decide, by decide, by decide, ⟨.shape, by decide⟩, by decide⟩
